@@ -332,6 +332,7 @@ fn worker_main(args: &[String]) {
         let mut res = json!({
             "idx": idx,
             "hash": format!("{:016x}", sim.hash),
+            "rhash": format!("{:016x}", sim.result_hash),
             "shape": format!("{:016x}", sim.shape_hash),
             "events": sim.n_events,
             "reads": sim.clocks.iter().map(|c| c.idx).sum::<u64>(),
@@ -636,21 +637,43 @@ fn seq_hash(prop: &PropDef, tier: Tier, seed: u64, indices: &[u64]) -> Option<St
         .find_map(|l| l.strip_prefix("HASH ").map(|h| h.trim().to_string()))
 }
 
+/// same, for the hash over the returned results only
+fn seq_rhash(prop: &PropDef, tier: Tier, seed: u64, indices: &[u64]) -> Option<String> {
+    let exe = std::env::current_exe().ok()?;
+    let list = indices.iter().map(|i| i.to_string()).collect::<Vec<_>>().join(",");
+    let out = Command::new(exe)
+        .arg("seq")
+        .arg(prop.id)
+        .arg(tier.name())
+        .arg(seed.to_string())
+        .arg(list)
+        .stderr(Stdio::null())
+        .output()
+        .ok()?;
+    String::from_utf8_lossy(&out.stdout)
+        .lines()
+        .find_map(|l| l.strip_prefix("RHASH ").map(|h| h.trim().to_string()))
+}
+
 fn seq_main(args: &[String]) -> i32 {
     let prop = find_prop(&args[0]);
     let tier = Tier::parse(&args[1]);
     let seed: u64 = args[2].parse().unwrap_or(DEFAULT_SEED);
     std::panic::set_hook(Box::new(|_| {}));
     let mut last = String::new();
+    let mut last_r = String::new();
     for idx in args[3].split(',').filter_map(|t| t.parse::<u64>().ok()) {
         let (_, sim) = execute(&prop, tier, ChoiceStream::search(run_seed(seed, &prop, idx)));
         last = format!("{:016x}", sim.hash);
+        last_r = format!("{:016x}", sim.result_hash);
     }
     println!("HASH {}", last);
+    println!("RHASH {}", last_r);
     0
 }
 
-/// A run whose event log differed between two worker processes.  Executed alone in a fresh
+/// A run whose event log differed between two worker processes.  What is compared from here on is
+/// the hash over the *results* every solve returned.  Executed alone in a fresh
 /// process (twice) it gives the reference hash; the worker whose hash differs had executed
 /// other runs before it, and that history is minimised to a short sequence of runs which,
 /// executed in one process, changes the outcome of the last one.
@@ -664,17 +687,19 @@ fn triage_mismatch(
     stride1: u64,
     stride2: u64,
 ) -> Option<(u64, String, String, Value)> {
-    let a1 = seq_hash(prop, tier, seed, &[idx])?;
-    let a2 = seq_hash(prop, tier, seed, &[idx])?;
+    let a1 = seq_rhash(prop, tier, seed, &[idx])?;
+    let a2 = seq_rhash(prop, tier, seed, &[idx])?;
     if a1 != a2 {
         let detail = format!(
-            "run {} executed alone in two fresh processes gave event-log hashes {} and {}",
+            "run {} executed alone in two fresh processes returned results with hashes {} and {}",
             idx, a1, a2
         );
         let v = json!({"violations":[{"class":"C05.fresh_process_runs_differ","key":"","detail":detail}],
             "choices": Value::Null, "sequence":[idx], "fresh_hash": a1, "history_hash": a2});
         return Some((idx, "C05.fresh_process_runs_differ".to_string(), detail, v));
     }
+    // h1, h2: the result hashes seen in the two worker processes.  If the results agree
+    // everywhere only the event logs differed: that is not this property's business
     let (hist_hash, stride) = if h1 != a1 { (h1, stride1) } else { (h2, stride2) };
     if hist_hash == a1 {
         return None;
@@ -690,14 +715,14 @@ fn triage_mismatch(
     let differs = |pre: &[u64]| -> bool {
         let mut l = pre.to_vec();
         l.push(idx);
-        matches!(seq_hash(prop, tier, seed, &l), Some(h) if h != a1)
+        matches!(seq_rhash(prop, tier, seed, &l), Some(h) if h != a1)
     };
     let mut cur = hist.clone();
     if !differs(&cur) {
         // not reproduced from the run indices alone (e.g. a minimisation inside the worker
         // left the state behind): report unminimised
         let detail = format!(
-            "run {} gave event-log hash {} after {} earlier runs in its worker process and {} alone in a fresh process (sequence not reproduced in isolation)",
+            "run {} returned results with hash {} after {} earlier runs in its worker process and {} alone in a fresh process (sequence not reproduced in isolation)",
             idx, hist_hash, hist.len(), a1
         );
         let v = json!({"violations":[{"class":"C05.depends_on_process_history","key":"","detail":detail}],
@@ -733,9 +758,9 @@ fn triage_mismatch(
     }
     let mut seq = cur.clone();
     seq.push(idx);
-    let hh = seq_hash(prop, tier, seed, &seq).unwrap_or_default();
+    let hh = seq_rhash(prop, tier, seed, &seq).unwrap_or_default();
     let detail = format!(
-        "identical call not reproducible: run {} gives event-log hash {} alone in a fresh process but {} when runs {:?} were executed before it in the same process ({} earlier runs in the worker where it was seen)",
+        "identical call not reproducible: run {} returns results with hash {} alone in a fresh process but {} when runs {:?} were executed before it in the same process ({} earlier runs in the worker where it was seen)",
         idx, a1, hh, cur, hist.len()
     );
     let v = json!({"violations":[{"class":"C05.depends_on_process_history","key":"","detail":detail}],
@@ -818,10 +843,15 @@ fn run_main(args: &[String]) -> i32 {
     let wall = t0.elapsed().as_secs_f64();
 
     let mut hash_by_idx: BTreeMap<u64, String> = BTreeMap::new();
+    let mut rhash_by_idx: BTreeMap<u64, String> = BTreeMap::new();
     for r in &batch.results {
         hash_by_idx.insert(
             r["idx"].as_u64().unwrap(),
             r["hash"].as_str().unwrap_or("").to_string(),
+        );
+        rhash_by_idx.insert(
+            r["idx"].as_u64().unwrap(),
+            r["rhash"].as_str().unwrap_or("").to_string(),
         );
     }
     let mut mismatches = 0u64;
@@ -835,7 +865,11 @@ fn run_main(args: &[String]) -> i32 {
             if h != h2 {
                 mismatches += 1;
                 eprintln!("determinism mismatch at run {}", idx);
-                mismatch_at.push((idx, h.clone(), h2.to_string()));
+                mismatch_at.push((
+                    idx,
+                    rhash_by_idx.get(&idx).cloned().unwrap_or_default(),
+                    r["rhash"].as_str().unwrap_or("").to_string(),
+                ));
             }
         }
     }
@@ -844,10 +878,14 @@ fn run_main(args: &[String]) -> i32 {
     // mismatch is triaged into a replayable sequence of runs.
     let mut repro_violations: Vec<(u64, String, String, Value)> = vec![];
     if prop.id == "C05" && !mismatch_at.is_empty() {
-        mismatch_at.sort();
-        for (idx, h1, h2) in mismatch_at.iter().take(2) {
+        // those whose returned results differ between the two workers first
+        mismatch_at.sort_by_key(|(idx, r1, r2)| (r1 == r2, *idx));
+        for (idx, h1, h2) in mismatch_at.iter().take(3) {
             if let Some(v) = triage_mismatch(&prop, tier, seed, *idx, h1, h2, workers, w2 * every) {
                 repro_violations.push(v);
+                if repro_violations.len() >= 2 {
+                    break;
+                }
             }
         }
         if !repro_violations.is_empty() {
@@ -1076,10 +1114,10 @@ fn replay_main(args: &[String]) -> i32 {
         let seed = body["seed"].as_u64().unwrap_or(DEFAULT_SEED);
         let seq: Vec<u64> = seq.iter().filter_map(|v| v.as_u64()).collect();
         let Some(&last) = seq.last() else { return 2 };
-        let alone = seq_hash(&prop, tier, seed, &[last]).unwrap_or_default();
-        let after = seq_hash(&prop, tier, seed, &seq).unwrap_or_default();
-        println!("run {} alone in a fresh process : event-log hash {}", last, alone);
-        println!("run {} after runs {:?} : event-log hash {}", last, &seq[..seq.len() - 1], after);
+        let alone = seq_rhash(&prop, tier, seed, &[last]).unwrap_or_default();
+        let after = seq_rhash(&prop, tier, seed, &seq).unwrap_or_default();
+        println!("run {} alone in a fresh process : result hash {}", last, alone);
+        println!("run {} after runs {:?} : result hash {}", last, &seq[..seq.len() - 1], after);
         println!("recorded: fresh {} history {}", body["fresh_hash"], body["history_hash"]);
         if alone != after || seq.len() == 1 && body["fresh_hash"] != body["history_hash"] {
             println!("VIOLATION property={} replay={}", prop.id, path);
